@@ -176,6 +176,8 @@ def explore_config(acc, subj, budget, w, b, tier, seed):
     else:
         alphabet = list(syms)
     ops = [c for k in range(1, maxc + 1) for c in itertools.product(alphabet, repeat=k)]
+    if subj.kind == "manager":
+        ops.append(())  # an empty chunk: nothing observed, nothing granted, estimate unchanged (judged, never enqueued)
     with T.ties(T.Tape()):
         obj0 = _make(subj, budget, w, subj.rng(budget))
     ref0 = Ref(subj, budget, w)
@@ -210,6 +212,8 @@ def explore_config(acc, subj, budget, w, b, tier, seed):
                 for kind, detail in judge_transition(subj, budget, w, r2, o, chunk, idx):
                     acc.violation(subj.name, kind, detail + " [budget=%s w=%s history=%s]" % (budget, w, [c for c, _ in h2]), wit, {}, rep,
                                   size=len(h2) * 10 + len(chunk))
+                if len(chunk) == 0:
+                    continue
                 key = (fp_merge(o), r2.n, r2.g)
                 acc.outcome((subj.name, budget, w, r2.n, r2.g))
                 if len(h2) == 3 and not acc.samples:
